@@ -16,6 +16,7 @@ import (
 	"math/rand"
 	"os"
 	"path/filepath"
+	"reflect"
 	"strings"
 	"syscall"
 	"testing"
@@ -167,7 +168,7 @@ func c16One(t *testing.T, base string, j *c16Job, id int, schedule []string, fin
 		name := fmt.Sprintf("s%d", k)
 		names = append(names, name)
 		s.Go(name, func() {
-			r := acquireUploadToken()
+			r := c16Acquire()
 			results[name] = r
 		})
 	}
@@ -304,4 +305,17 @@ func c16One(t *testing.T, base string, j *c16Job, id int, schedule []string, fin
 	emit(rt.M{"kind": "result", "n": j.N, "init": initClass, "initKind": j.Init, "status": out.status, "fault": fault, "acquired": acquired,
 		"schedule": out.executed, "steps": step, "why": why, "tokenAfter": c16TokenState(tokenPath)})
 	return out
+}
+
+// c16Acquire calls acquireUploadToken through reflection with the zero value
+// of every parameter it may have grown, so that the harness still builds when
+// the private signature changes (a zero time means "now" wherever the package
+// takes an optional time). The first result is the acquisition.
+func c16Acquire() bool {
+	fn := reflect.ValueOf(acquireUploadToken)
+	args := make([]reflect.Value, fn.Type().NumIn())
+	for i := range args {
+		args[i] = reflect.Zero(fn.Type().In(i))
+	}
+	return fn.Call(args)[0].Bool()
 }
